@@ -321,6 +321,7 @@ static void scn_cond(int timed_mode)
 
 /* ======================================================================= barrier */
 static ABT_barrier g_bar;
+static volatile int g_bar_reinit_n; /* >0: the first caller that leaves the last round reinitialises the barrier */
 static void barrier_body(caller_t *c)
 {
     int first = c->x[0], rounds = c->x[1];
@@ -330,6 +331,14 @@ static void barrier_body(caller_t *c)
         EV("\"e\":\"BarCall\",\"t\":%d,\"k\":%d", c->id, first + k);
         CHK(ABT_barrier_wait(g_bar));
         EV("\"e\":\"BarRet\",\"t\":%d,\"k\":%d", c->id, first + k);
+    }
+    /* a fast caller reinitialises the barrier while slow ones are still leaving the last round */
+    int n2 = g_bar_reinit_n;
+    if (n2 > 0 && __sync_bool_compare_and_swap(&g_bar_reinit_n, n2, -n2)) {
+        uint32_t got = 0;
+        CHK(ABT_barrier_reinit(g_bar, (uint32_t)n2));
+        CHK(ABT_barrier_get_num_waiters(g_bar, &got));
+        EV("\"e\":\"Barrier\",\"n\":%d", (int)got);
     }
 }
 /* a tasklet is not allowed to wait on a barrier (1.x API): the call is rejected
@@ -361,14 +370,19 @@ static void scn_barrier(void)
     EV("\"e\":\"Barrier\",\"n\":%d", n);
     if (rnd(3) == 0)
         barrier_intruder();
+    /* phase 2 after reinit with a different number of waiters: by the main thread
+     * after everybody left, or by the first caller that leaves phase 1 */
+    int n2 = 1 + rnd(4);
+    g_bar_reinit_n = rnd(2) ? n2 : 0;
     callers_launch(32768);
     callers_join();
-    /* phase 2 after reinit with a different number of waiters */
-    int n2 = 1 + rnd(4);
     uint32_t got = 0;
-    CHK(ABT_barrier_reinit(g_bar, (uint32_t)n2));
-    CHK(ABT_barrier_get_num_waiters(g_bar, &got));
-    EV("\"e\":\"Barrier\",\"n\":%d", (int)got);
+    if (g_bar_reinit_n == 0) {
+        CHK(ABT_barrier_reinit(g_bar, (uint32_t)n2));
+        CHK(ABT_barrier_get_num_waiters(g_bar, &got));
+        EV("\"e\":\"Barrier\",\"n\":%d", (int)got);
+    }
+    g_bar_reinit_n = 0;
     if (rnd(3) == 0)
         barrier_intruder();
     assign_kinds(n2, 1, 0);
